@@ -458,6 +458,10 @@ func checkC09(c *Ctx, r *Report) {
 		r.check(len(ps) == 0, "C09.R4.walk", "Msg.Truncate:questions", c.pos(fn.Pos()), "l = 12 + questions", "%s", strings.Join(ps, "; "))
 	}
 	c09R5(c, r)
+	txtEmptyList(c, r, "C09.R3.txt-empty", "Truncate's size walk (Len) under-counts a reply holding TXT-like records without strings, so the truncated reply can exceed the requested size")
+	r.rule("C09.R2.opt-scan", 2, "popEdns0 / IsEdns0 scan the whole additional section, index 0 included")
+	descendingScanCoversZero(c, r, "C09.R2.opt-scan", "Msg.popEdns0", "an OPT record that is the first additional record is not found: Truncate does not reserve room for it and drops it with the other additional records")
+	descendingScanCoversZero(c, r, "C09.R2.opt-scan", "Msg.IsEdns0", "an OPT record that is the first additional record is not found: the reply is sized without it and the OPT is not retained")
 }
 
 // edgeDominatesAny: one of the If's edges edge-dominates target.
